@@ -28,6 +28,8 @@ def gen_rv(rng, nops):
             a += (1 << 32) * rng.choice([1, 2])
         w = rng.choice([1, 2, 4, 8])
         ops.append(["w" if rng.random() < 0.5 else "r", a, w, rng.getrandbits(8 * w)])
+        if rng.random() < 0.12:
+            ops.append(list(ops[-1]))  # exactly the same access again (also after a rejected one)
     return {"kind": "rv", "ops": ops}
 
 
@@ -39,6 +41,8 @@ def gen_toy(rng, nops):
             a += rng.choice([1 << 12, 1 << 16, -(1 << 12)])
         w = rng.choice([2, 2, 4, 8])
         ops.append(["w" if rng.random() < 0.5 else "r", a, w, rng.getrandbits(8 * w)])
+        if rng.random() < 0.12:
+            ops.append(list(ops[-1]))
     return {"kind": "toy", "ops": ops}
 
 
